@@ -47,7 +47,9 @@ def gen_cases(tier, seed):
                 yield C(w="sptensor", shape=shape, fam=fam, pattern="some", base=0)
                 yield C(w="ktensor", shape=shape, fam=fam, R=int(rng.integers(1, 6)))
         for fam in FAMILIES:
-            yield C(w="matrix", shape=[int(rng.integers(1, 6)), int(rng.integers(1, 6))], fam=fam)
+            for layout in ("C", "F", "transposed-view", "strided-view"):
+                yield C(w="matrix", shape=[int(rng.integers(1, 6)), int(rng.integers(1, 6))], fam=fam, layout=layout)
+            yield C(w="tensor", shape=[int(rng.integers(2, 5)), int(rng.integers(2, 5)), int(rng.integers(1, 4))], fam=fam, layout="C")
     yield C(w="tensor", shape=[40, 45, 40], fam="bits")        # > 1 MB of text: larger than any text-I/O buffer
     yield C(w="ktensor", shape=[300, 2, 150], fam="normal", R=60)
     yield C(w="sptensor", shape=[50, 60, 70], fam="bits", pattern="big", base=1)
@@ -114,7 +116,7 @@ def _run(case, ctx, rng, shape, path):
         if fam == "special" and n > 2:
             A.reshape(-1)[0] = 0.0
             A.reshape(-1)[1] = -0.0
-        T = ttb.tensor(A.copy())
+        T = ttb.tensor(np.ascontiguousarray(A)) if case.get("layout") == "C" else ttb.tensor(A.copy())
         B = _roundtrip(ctx, T, path)
         if B is None:
             return
@@ -125,7 +127,19 @@ def _run(case, ctx, rng, shape, path):
                       lambda: f"values differ: first mismatch {_first(B.data, A)}")
     elif w == "matrix":
         A = _values(rng, n, fam).reshape(shape)
-        B = _roundtrip(ctx, A.copy(), path)
+        layout = case.get("layout", "C")
+        ctx.feat(layout=layout)
+        if layout == "F":
+            arg = np.asfortranarray(A)
+        elif layout == "transposed-view":
+            arg = np.ascontiguousarray(A.T).T          # same values, a transposed view of a C-contiguous buffer
+        elif layout == "strided-view":
+            big = np.zeros((shape[0] * 2, shape[1] * 2))
+            big[::2, ::2] = A
+            arg = big[::2, ::2]
+        else:
+            arg = A.copy()
+        B = _roundtrip(ctx, arg, path)
         if B is None:
             return
         ok = isinstance(B, np.ndarray) and B.shape == shape
